@@ -1075,8 +1075,9 @@ def rule_S7(ctx):
             if isinstance(cur, ast.Call):
                 f = cur.func
                 kws = {k.arg: k.value for k in cur.keywords if k.arg}
-                if isinstance(f, ast.Attribute) and f.attr == "tobytes" and not cur.args:
-                    ops.append(("tobytes",))
+                if isinstance(f, ast.Attribute) and f.attr == "tobytes" and len(cur.args) <= 1:
+                    o = kws.get("order", cur.args[0] if cur.args else None)
+                    ops.append(("tobytes", None if o is None else (o.value if isinstance(o, ast.Constant) else "?")))
                     cur = f.value
                     continue
                 if isinstance(f, ast.Name) and f.id == "bytes" and len(cur.args) == 1 and not kws:
@@ -1137,6 +1138,9 @@ def rule_S7(ctx):
             ops.append(("?", norm(cur)[:60]))
             break
         ops.reverse()
+        if [o[0] for o in ops] == ["read", "frombuffer", "reshape", "flip", "tobytes"]:
+            # tobytes() of the two-dimensional array lays the rows out one after the other itself (C order unless told otherwise)
+            ops.insert(4, ("flat", ops[4][1] if len(ops[4]) > 1 else None))
         kinds = [o[0] for o in ops]
         if kinds != ["read", "frombuffer", "reshape", "flip", "flat", "tobytes"]:
             ok = False
@@ -1156,7 +1160,7 @@ def rule_S7(ctx):
             if fl[1] != 0:
                 ok = False
                 det.append("flip is not along axis 0 (sample order)")
-            if ft[1] not in (None, "C"):
+            if ft[1] not in (None, "C") or (len(tb) > 1 and tb[1] not in (None, "C")):
                 ok = False
                 det.append("flatten order is not row-major")
         ctx.ob("S7", rr, "reversed read = base read of `size` bytes, reshaped to sample_width-byte rows, rows flipped, flattened row-major", ok, "; ".join(det), inst="reversed-read")
